@@ -23,13 +23,20 @@ pub static C16: C16Prop = C16Prop;
 
 /// a delay in ms and a spelling that denotes exactly that value
 fn spelled(rng: &mut Rng) -> (u64, String) {
-    match rng.below(9) {
+    match rng.below(13) {
         7 => {
             // above 65 535 ms (what a 16 bit field could hold in the binary model)
             let n = rng.range(2, 4);
             (n * 60_000, format!("{}m", n))
         }
         8 => (90_000, "1.5m".to_string()),
+        9 => {
+            let n = rng.range(1, 3);
+            (n * 3_600_000, format!("{}h", n))
+        }
+        10 => (3_600, "0.001h".to_string()),
+        11 => (43_200_000, "0.5d".to_string()),
+        12 => (7_200_000, "2H".to_string()),
         0 => {
             let n = rng.range(1, 90);
             (n, format!("{}ms", n))
@@ -68,6 +75,7 @@ fn build_doc(rng: &mut Rng, nsteps: usize) -> (Doc, Vec<SendPlan>) {
         DataDecl { id: "x".into(), expr: Some(Expr::Int(1)) },
         DataDecl { id: "sid".into(), expr: Some(Expr::Str("none".into())) },
         DataDecl { id: "tgt".into(), expr: Some(Expr::Str("#_scxml_1".into())) },
+        DataDecl { id: "arr".into(), expr: Some(Expr::Array(vec![Expr::Int(1), Expr::Int(2), Expr::Int(3)])) },
     ];
     root.initial = Initial::Attr(vec!["run".into()]);
     let mut run = Node::new("run", Kind::State);
@@ -101,11 +109,13 @@ fn build_doc(rng: &mut Rng, nsteps: usize) -> (Doc, Vec<SendPlan>) {
                         target: if via_var { Some("@var:tgt".into()) } else { None },
                         delay_ms: ms,
                         id,
-                        params: vec![("v".into(), Expr::Var("x".into()))],
+                        params: if rng.chance(1, 4) { vec![("v".into(), Expr::Var("x".into())), ("@loc:a".into(), Expr::Var("arr".into()))] } else { vec![("v".into(), Expr::Var("x".into()))] },
                         delay_text: Some(text),
                         delay_expr: rng.chance(1, 4),
                         idlocation,
                     });
+                    // ... also inside a container that was passed along
+                    t.content.push(Exec::Assign { loc: "arr[0]".into(), expr: Expr::Add(Box::new(Expr::Var("x".into())), Box::new(Expr::Int(100))) });
                     // the data changes right after the send: delivery must carry the old value
                     t.content.push(Exec::Assign { loc: "x".into(), expr: Expr::Add(Box::new(Expr::Var("x".into())), Box::new(Expr::Int(1))) });
                     if via_var {
